@@ -16,12 +16,17 @@ class Crash(BaseException):
     """injected after a chosen bucket mutation"""
 
 
+class Rejected(Exception):
+    """the store refuses a put (SlowDown, time-out, 5xx): an ordinary exception, nothing is written"""
+
+
 class FakeBucketStore(object):
     def __init__(self):
         self.objects = {}      # key -> (bytes, last_modified, storage_class)
         self.log = []          # ('put'|'delete', key)
         self.clock = lambda: datetime.datetime.utcnow()
         self.crash_after = None   # crash after this many further mutations
+        self.reject_full = 0      # refuse this many further puts of a `full/` object
 
     def now(self):
         return pytz.utc.localize(self.clock())
@@ -60,6 +65,9 @@ class FakeClient(object):
 
     def put_object(self, Bucket, Key, Body, **kwargs):
         st = store(Bucket)
+        if st.reject_full and 'full/' in Key:
+            st.reject_full -= 1
+            raise Rejected(Key)
         if isinstance(Body, str):
             Body = Body.encode('utf-8')
         st.objects[Key] = (Body, st.now(), kwargs.get('StorageClass', 'STANDARD'))
